@@ -9,20 +9,22 @@
       adr <cols> <rows> <rev> <key>  listingtable.__getitem__ (Table.v): cols = hex names ','-separated; rows = row keys ','-separated,
                                      each key its hex names joined by '.', a leading 't' marks a tuple; cell (i,j) = 1000*i + j + 1;
                                      key = 'i'<int> | 's'<hex> | 't'<hex.hex..>
-      demo -|A                       the lines of the demonstration listing of Witness2.v (A: the AUTOUGH2 one of Witness3.v), so that the
+      demo -|A|P                     the lines of the demonstration listing of Witness2.v (A: the AUTOUGH2 one of Witness3.v, P: the TOUGH+ one of
+                                     Witness4.v), so that the
                                      real reader can be run on the very text the Coq examples are about
       achk - <tags> <line> <line> ...   the same for an AUTOUGH2 listing (afile sets = the lines, CheckAUT.afile_check = Some _)
       fchk <sim> <tags> <line> <line> ...
                                      the listing abstracted into result sets / tables (one role tag per line, assigned by
                                      an independent scan): is it a rendered listing to which the whole-file theorem applies?
-                                     (file_from sets = the lines, and CheckT2.file_check = Some _)
+                                     (file_from sets = the lines, and CheckT2.file_check = Some _, or CodecTP.tp_check for TOUGH+, or else
+                                     the general class CodecG2.g2_check = Some _: rows in any order, extra tables)
       file <sim> <skip,skip> <i,i,..> <line> <line> ...
                                      open_listing (file-level reader, Reader.v) followed by set_index for each i:
                                      table structures, and at each index the index/time/step and every cell *)
 From Coq Require Import Ascii String List Bool ZArith NArith.
 From PTBase Require Import Exn PyStr PyNum PyVal Wire.
 From PTModel Require Import Fortran.
-From P Require Import Model Table Reader TableT2 SetT2 FileT2 CodecT2 CheckT2 Witness2 TableAUT FileAUT CheckAUT Witness3 LoopG FileG FileTP CodecTP.
+From P Require Import Model Table Reader TableT2 SetT2 FileT2 CodecT2 CheckT2 Witness2 TableAUT FileAUT CheckAUT Witness3 LoopG FileG FileTP CodecTP TableG CodecG2 Witness4.
 Import ListNotations.
 Open Scope char_scope.
 
@@ -273,6 +275,36 @@ Definition why_tp (sets : list pset) : str :=
   end.
 Fixpoint lines_eqb (a b : list str) : bool :=
   match a, b with [], [] => true | x :: a', y :: b' => str_eqb x y && lines_eqb a' b' | _, _ => false end.
+Definition why_g2 (sm : sim) (sets : list pset) : str :=
+  match sets with
+  | [] => s2l "no-result-set"
+  | x0 :: more =>
+      match find_false set_okb sets 0 with
+      | Some k => s2l "set_ok " ++ show_nat k ++ s2l " " ++ why_set (nth k sets x0)
+      | None =>
+          match titleG sm (file_from sets) with
+          | Raise _ => s2l "title"
+          | Ok title =>
+              match find_false (fun t => match tshape_checkG sm title t with Some _ => true | None => false end) (set_tables x0) 0 with
+              | Some j => s2l "table_shape " ++ show_nat j
+              | None =>
+                  match shapesG sm title (set_tables x0) with
+                  | None => s2l "shapes"
+                  | Some Ts =>
+                      let names := map p_name (set_tables x0) in
+                      match find_false vals_okb Ts 0 with
+                      | Some j => s2l "values " ++ show_nat j
+                      | None => if negb (nodupb str_eqb names) then s2l "names-repeat"
+                                else match find_false (g2_like_b names Ts) sets 0 with
+                                     | Some k => s2l "set_like " ++ show_nat k
+                                     | None => s2l "?"
+                                     end
+                      end
+                  end
+              end
+          end
+      end
+  end.
 Definition run_fchk (sm tags : str) (lines : list str) : str :=
   let file := map unhex_fast lines in
   match parse_sets (S (length file)) (combine tags file) with
@@ -282,7 +314,13 @@ Definition run_fchk (sm tags : str) (lines : list str) : str :=
       else match (if sim_eqb (parse_sim sm) TPLUS then tp_check sets else file_check (parse_sim sm) sets) with
            | Some (title, Ts) => flatten ([s2l "INCLASS sets="; show_nat (length sets); s2l " tables="; show_nat (length Ts); s2l " rows="]
                                           ++ show_nats (map (fun T => length (lt_rows T)) Ts))
-           | None => s2l "OUT " ++ (if sim_eqb (parse_sim sm) TPLUS then why_tp sets else why_out (parse_sim sm) sets)
+           | None =>
+               match (if sim_eqb (parse_sim sm) TPLUS || sim_eqb (parse_sim sm) AUT then None else g2_check (parse_sim sm) sets) with
+               | Some (title, Ts) => flatten ([s2l "INCLASS sets="; show_nat (length sets); s2l " tables="; show_nat (length Ts); s2l " rows="]
+                                              ++ show_nats (map (fun T => length (lt_rows T)) Ts) ++ [s2l " class=general"])
+               | None => s2l "OUT " ++ (if sim_eqb (parse_sim sm) TPLUS then why_tp sets
+                                        else why_out (parse_sim sm) sets ++ s2l "; general: " ++ why_g2 (parse_sim sm) sets)
+               end
            end
   end.
 
@@ -410,7 +448,7 @@ Definition run_case (line : str) : str :=
         match args with
         | sk :: idx :: lines => run_file h sk idx lines
         | _ => s2l "BADCASE" end
-      else if str_eqb k (s2l "demo") then flatten (sep_list comma (map hex (if str_eqb h (s2l "A"%string) then ademo_file else demo_file)))
+      else if str_eqb k (s2l "demo") then flatten (sep_list comma (map hex (if str_eqb h (s2l "A"%string) then ademo_file else if str_eqb h (s2l "P"%string) then tpdemo_file else demo_file)))
       else if str_eqb k (s2l "achk") then
         match args with
         | tags :: lines => run_achk tags lines
